@@ -123,3 +123,14 @@ def drawing_of_store_states():
     if sym.concretize(sym.bool("meta")):
         h[nodes[1]].metadata["k"] = "v"
     check_drawing(h, RenderConfig(), "store")
+
+
+@lemma("C20", bounds="HUGRs whose ROOT is a dataflow container built by a standalone builder (Dfg / Cfg / Conditional / TailLoop) with 0..2 value inputs "
+                     "(order edge, multi-link, nested cases / blocks inside); default palette", outside="other rooted HUGRs")
+def drawing_of_container_rooted_hugrs():
+    from vrf.harness.c08 import _inner
+    kind = sym.concretize(sym.int("root_kind", 0, 3))
+    n_in = sym.concretize(sym.int("n_in", 1 if kind == 2 else 0, 2))
+    inner, n_out = _inner(kind, n_in)
+    check_drawing(inner.hugr, RenderConfig(), "root")
+    sym.check("root:root_has_its_output_cells", inner.hugr.num_out_ports(inner.hugr.root) == n_out)
